@@ -184,4 +184,961 @@ theorem list_ext_getD {a b : List Nat} (hl : a.length = b.length)
   have := h i h1
   rwa [getD_lt h1, getD_lt h2] at this
 
+
+/-- `omega` after unfolding the two constants `W = 2^32` and `MAXU = 2^32 - 1`. -/
+macro "womega" : tactic => `(tactic| ((try simp only [W, MAXU] at *) <;> omega))
+
+theorem trimmed_last_ne_one {t : List Nat} (ht : trim t = t) (h : 0 < t.length) :
+    t.getD (t.length - 1) 1 ≠ 1 := by
+  have h1 := trim_eq_self_iff.1 ht
+  rw [List.getLast?_eq_getElem?] at h1
+  rw [getD_lt (by omega)]
+  rw [List.getElem?_eq_getElem (by omega)] at h1
+  simpa using h1
+
+theorem trim_eq_iff {a b : List Nat} : trim a = trim b ↔ ∀ i, a.getD i 1 = b.getD i 1 := by
+  constructor
+  · intro h i; rw [← getD_trim a, ← getD_trim b, h]
+  · intro h
+    have key : ∀ a b : List Nat, (∀ i, a.getD i 1 = b.getD i 1) → (trim a).length ≤ (trim b).length := by
+      intro a b h
+      apply Nat.le_of_not_lt
+      intro hlt
+      have h1 := trimmed_last_ne_one (trim_trim a) (by omega)
+      rw [getD_trim, h, ← getD_trim, getD_ge (by omega)] at h1
+      exact h1 rfl
+    apply list_ext_getD (Nat.le_antisymm (key a b h) (key b a (fun i => (h i).symm)))
+    intro i _; rw [getD_trim, getD_trim, h]
+
+theorem trimmed_eq_iff {a b : List Nat} (ha : trim a = a) (hb : trim b = b) :
+    a = b ↔ ∀ i, a.getD i 1 = b.getD i 1 := by
+  rw [← trim_eq_iff, ha, hb]
+
+/-! ### set / padding -/
+theorem getD_set_one (l : List Nat) (d i : Nat) :
+    (l.set d 1).getD i 1 = if i = d then 1 else l.getD i 1 := by
+  simp only [List.getD_eq_getElem?_getD, List.getElem?_set]
+  split
+  · rename_i h; subst h; split <;> simp_all
+  · split <;> simp_all <;> omega
+
+theorem prod_set {l : List Nat} {d : Nat} (h : d < l.length) :
+    ∃ q, prod l = l[d] * q ∧ ∀ m, prod (l.set d m) = m * q := by
+  induction l generalizing d with
+  | nil => simp at h
+  | cons x xs ih =>
+    cases d with
+    | zero => exact ⟨prod xs, by simp, by simp⟩
+    | succ d =>
+      obtain ⟨q, h1, h2⟩ := ih (d := d) (by simpa using h)
+      refine ⟨x * q, ?_, ?_⟩
+      · simp [h1, Nat.mul_left_comm]
+      · intro m; simp [h2, Nat.mul_left_comm]
+
+/-- `padded` of update_dim / setDim. -/
+def pad (l : List Nat) (d : Nat) : List Nat :=
+  if d ≥ l.length then l ++ List.replicate (d + 1 - l.length) 1 else l
+
+theorem length_pad (l : List Nat) (d : Nat) : (pad l d).length = max l.length (d + 1) := by
+  unfold pad; split <;> (try simp) <;> omega
+
+theorem prod_pad (l : List Nat) (d : Nat) : prod (pad l d) = prod l := by
+  unfold pad; split <;> simp
+
+theorem mem_pad {l : List Nat} {d x : Nat} (h : x ∈ pad l d) : x ∈ l ∨ x = 1 := by
+  unfold pad at h; split at h
+  · rcases List.mem_append.1 h with h | h
+    · exact .inl h
+    · exact .inr (List.eq_of_mem_replicate h)
+  · exact .inl h
+
+theorem getD_pad (l : List Nat) (d i : Nat) : (pad l d).getD i 1 = l.getD i 1 := by
+  unfold pad; split
+  · simp only [List.getD_eq_getElem?_getD, List.getElem?_append, List.getElem?_replicate]
+    split
+    · rfl
+    · rename_i h; rw [List.getElem?_eq_none (by omega)]; split <;> rfl
+  · rfl
+
+theorem mk_eq (dims : List Nat) (b : Nat) : Spec.mk dims b =
+    if dims.length > 8 ∨ 0 ∈ dims ∨ b = 0 ∨ prod dims * b ≥ W then none else some ⟨trim dims, b⟩ := by
+  unfold Spec.mk
+  have : (dims.any (· == 0) = true) ↔ 0 ∈ dims := by simp
+  simp only [this]
+
+/-! ### the constructor's checked product -/
+theorem prodChk_some {l : List Nat} {v r : Nat} (h : Shape.prodChk l v = some r) : r = v * prod l := by
+  induction l generalizing v with
+  | nil => simp [Shape.prodChk] at h; simp [h]
+  | cons d ds ih =>
+    simp only [Shape.prodChk] at h
+    split at h
+    · cases h
+    · rw [ih h, prod_cons, Nat.mul_assoc]
+
+theorem prodChk_eq {l : List Nat} (hl : ∀ d ∈ l, d ≠ 0) (v : Nat) (hv : v ≤ MAXU) :
+    Shape.prodChk l v = if v * prod l > MAXU then none else some (v * prod l) := by
+  induction l generalizing v with
+  | nil => simp [Shape.prodChk]; omega
+  | cons d ds ih =>
+    have hp := prod_pos (fun y hy => hl y (List.mem_cons_of_mem _ hy))
+    simp only [Shape.prodChk, prod_cons]
+    rw [← Nat.mul_assoc]
+    have : v * d ≤ v * d * prod ds := Nat.le_mul_of_pos_right _ hp
+    split
+    · rw [if_pos (by omega)]
+    · rw [ih (fun y hy => hl y (List.mem_cons_of_mem _ hy)) _ (by omega)]
+
 end Primitiv.ShapeL
+
+namespace Primitiv
+open Primitiv.Spec Primitiv.ShapeL
+
+/-- The class invariant of primitiv::Shape. -/
+def Shape.Canonical (s : Shape) : Prop :=
+  s.dims.length ≤ 8 ∧ (∀ d ∈ s.dims, d ≠ 0) ∧ trim s.dims = s.dims ∧ s.batch ≠ 0 ∧
+  s.volume = Spec.prod s.dims ∧ s.volume * s.batch ≤ MAXU
+
+/-- The specification-level view of a model shape. -/
+def toSpec (s : Shape) : SShape := ⟨s.dims, s.batch⟩
+
+/-- The specification-level view of a model result: an Error is `none`. -/
+def toSpec? : R Shape → Option SShape
+  | .ok s => some (toSpec s)
+  | .error _ => none
+
+/-- Model result and specification result agree (see the header). -/
+def Agree (r : R Shape) (o : Option SShape) : Prop :=
+  match r, o with
+  | .ok s, some t => toSpec s = t ∧ s.Canonical
+  | .error .error, none => True
+  | _, _ => False
+
+namespace Shape.Canonical
+variable {s : Shape} (h : s.Canonical)
+include h
+theorem len : s.dims.length ≤ 8 := h.1
+theorem nz : ∀ d ∈ s.dims, d ≠ 0 := h.2.1
+theorem trimmed : trim s.dims = s.dims := h.2.2.1
+theorem batch_ne : s.batch ≠ 0 := h.2.2.2.1
+theorem vol : s.volume = Spec.prod s.dims := h.2.2.2.2.1
+theorem bound : s.volume * s.batch ≤ MAXU := h.2.2.2.2.2
+theorem vol_pos : 0 < s.volume := by rw [h.vol]; exact prod_pos h.nz
+theorem vol_lt : s.volume < W := by
+  have := h.bound; have := h.batch_ne
+  have : s.volume ≤ s.volume * s.batch := Nat.le_mul_of_pos_right _ (by omega)
+  womega
+theorem batch_lt : s.batch < W := by
+  have := h.bound; have := h.vol_pos
+  have : s.batch ≤ s.volume * s.batch := Nat.le_mul_of_pos_left _ (by omega)
+  womega
+theorem get_pos (i : Nat) : 0 < s.get i := by
+  unfold Shape.get
+  by_cases hi : i < s.dims.length
+  · rw [getD_lt hi]; exact Nat.pos_of_ne_zero (h.nz _ (List.getElem_mem hi))
+  · rw [getD_ge (by omega)]; decide
+theorem get_le_vol (i : Nat) : s.get i ≤ s.volume := by
+  unfold Shape.get
+  by_cases hi : i < s.dims.length
+  · rw [getD_lt hi, h.vol]; exact le_prod_of_mem h.nz (List.getElem_mem hi)
+  · rw [getD_ge (by omega)]; exact h.vol_pos
+theorem get_lt (i : Nat) : s.get i < W := Nat.lt_of_le_of_lt (h.get_le_vol i) h.vol_lt
+end Shape.Canonical
+
+namespace Agree
+theorem error : Agree throwError none := trivial
+theorem ok {s : Shape} (h : s.Canonical) : Agree (pure s) (some (toSpec s)) := ⟨rfl, h⟩
+theorem ok' {s : Shape} {t : SShape} (h : s.Canonical) (e : toSpec s = t) : Agree (.ok s) (some t) := ⟨e, h⟩
+
+theorem toSpec_eq {r : R Shape} {o : Option SShape} (h : Agree r o) : toSpec? r = o := by
+  unfold Agree at h
+  split at h
+  · simp [toSpec?, h.1]
+  · rfl
+  · exact h.elim
+
+theorem not_crash {r : R Shape} {o : Option SShape} (h : Agree r o) : r ≠ crash := by
+  intro e; subst e; cases o <;> simp [Agree, crash] at h
+
+theorem canonical {r : R Shape} {o : Option SShape} (h : Agree r o) {s : Shape} (e : r = .ok s) :
+    s.Canonical := by
+  subst e
+  cases o with
+  | none => simp [Agree] at h
+  | some t => exact h.2
+
+theorem bind {r : R Shape} {o : Option SShape} {g : Shape → R Shape} {g' : SShape → Option SShape}
+    (h : Agree r o) (hg : ∀ s, s.Canonical → Agree (g s) (g' (toSpec s))) :
+    Agree (r >>= g) (o.bind g') := by
+  unfold Agree at h
+  split at h
+  · obtain ⟨h1, h2⟩ := h; subst h1; exact hg _ h2
+  · exact trivial
+  · exact h.elim
+end Agree
+
+/-! ### constructor, update_batch, update_dim -/
+theorem new_agree (dims : List Nat) (b : Nat) : Agree (Shape.new dims b) (Spec.mk dims b) := by
+  rw [mk_eq]; unfold Shape.new
+  by_cases hl : dims.length > 8
+  · simp only [hl, if_true, true_or]; exact Agree.error
+  simp only [hl, if_false, false_or]
+  by_cases hz : 0 ∈ dims
+  · simp only [hz, true_or, if_true]
+    cases hp : Shape.prodChk dims 1 with
+    | none => exact Agree.error
+    | some vol =>
+      have := prodChk_some hp
+      rw [prod_eq_zero hz] at this
+      simp only [this]; exact Agree.error
+  simp only [hz, false_or]
+  have hnz : ∀ d ∈ dims, d ≠ 0 := fun d hd e => hz (e ▸ hd)
+  have hpos := prod_pos hnz
+  rw [prodChk_eq hnz 1 (by decide), Nat.one_mul]
+  by_cases hbig : prod dims > MAXU
+  · simp only [hbig, if_true]
+    have : b = 0 ∨ prod dims * b ≥ W := by
+      by_cases hb : b = 0
+      · exact .inl hb
+      · have : prod dims ≤ prod dims * b := Nat.le_mul_of_pos_right _ (by omega)
+        right; womega
+    rw [if_pos this]; exact Agree.error
+  simp only [hbig, if_false]
+  by_cases hc : b = 0 ∨ prod dims * b ≥ W
+  · rw [if_pos hc, if_pos (by womega)]; exact Agree.error
+  · rw [if_neg hc, if_neg (by womega)]
+    refine Agree.ok' ⟨?_, ?_, ?_, ?_, ?_, ?_⟩ rfl
+    · exact Nat.le_trans (length_trim_le _) (by omega)
+    · exact fun d hd => hnz d (mem_trim hd)
+    · exact trim_trim _
+    · show b ≠ 0; womega
+    · exact (prod_trim _).symm
+    · show prod dims * b ≤ MAXU; womega
+
+theorem updateBatch_agree {s : Shape} (h : s.Canonical) (b : Nat) :
+    Agree (s.updateBatch b) (Spec.setBatch (toSpec s) b) := by
+  unfold Spec.setBatch Shape.updateBatch
+  rw [mk_eq]
+  simp only [toSpec]
+  have h1 := h.len; have h2 := h.nz
+  have hz : ¬ (0 ∈ s.dims) := fun hz => h2 0 hz rfl
+  simp only [hz, false_or, show ¬ s.dims.length > 8 by omega, ← h.vol]
+  by_cases hb : b = 0
+  · simp only [hb, if_true, true_or]; exact Agree.error
+  simp only [hb, if_false, false_or]
+  by_cases hc : s.volume * b > MAXU
+  · rw [if_pos hc, if_pos (by womega)]; exact Agree.error
+  · rw [if_neg hc, if_neg (by womega)]
+    refine Agree.ok' ⟨h.len, h.nz, h.trimmed, hb, h.vol, by simpa using hc⟩ ?_
+    simp [toSpec, h.trimmed]
+
+
+theorem updateDim_agree {s : Shape} (h : s.Canonical) (d m : Nat) :
+    Agree (s.updateDim d m) (Spec.setDim (toSpec s) d m) := by
+  unfold Spec.setDim Shape.updateDim
+  by_cases hd : d ≥ 8
+  · simp only [hd, if_true]; exact Agree.error
+  simp only [hd, if_false]
+  change Agree (if m = 0 then throwError else
+      if s.get d = 0 then crash else
+        if s.volume / s.get d * m > MAXU ∨ s.volume / s.get d * m * s.batch > MAXU then throwError
+        else pure ⟨trim ((pad s.dims d).set d m), s.batch, s.volume / s.get d * m⟩)
+    (Spec.mk ((pad s.dims d).set d m) s.batch)
+  rw [mk_eq]
+  have hlen : d < (pad s.dims d).length := by rw [length_pad]; omega
+  have hlen8 : ¬ ((pad s.dims d).set d m).length > 8 := by
+    rw [List.length_set, length_pad]; have := h.len; omega
+  obtain ⟨q, hq1, hq2⟩ := prod_set hlen
+  have hget : (pad s.dims d)[d] = s.get d := by rw [← getD_lt hlen, getD_pad]; rfl
+  rw [prod_pad, ← h.vol, hget] at hq1
+  have hgp := h.get_pos d
+  have hnv : s.volume / s.get d = q := by rw [hq1]; exact Nat.mul_div_cancel_left _ hgp
+  rw [hnv, if_neg (by omega : ¬ s.get d = 0), hq2 m, Nat.mul_comm q m]
+  by_cases hm : m = 0
+  · have : 0 ∈ (pad s.dims d).set d m := by
+      subst hm; exact List.mem_iff_getElem.2 ⟨d, by simpa using hlen, by simp⟩
+    rw [if_pos hm, if_pos (.inr (.inl this))]; exact Agree.error
+  have hz : ¬ 0 ∈ (pad s.dims d).set d m := by
+    intro hz
+    rcases List.mem_or_eq_of_mem_set hz with hz | hz
+    · rcases mem_pad hz with hz | hz
+      · exact h.nz 0 hz rfl
+      · cases hz
+    · exact hm hz.symm
+  have hb := h.batch_ne
+  simp only [hm, if_false, hz, hlen8, hb, false_or]
+  have : m * q ≤ m * q * s.batch := Nat.le_mul_of_pos_right _ (by omega)
+  by_cases hc : m * q * s.batch ≥ W
+  · rw [if_pos hc, if_pos (by womega)]; exact Agree.error
+  · rw [if_neg hc, if_neg (by womega)]
+    refine Agree.ok' ⟨?_, ?_, ?_, hb, ?_, ?_⟩ rfl
+    · exact Nat.le_trans (length_trim_le _) (by omega)
+    · exact fun x hx e => hz (e ▸ mem_trim hx)
+    · exact trim_trim _
+    · show m * q = _; rw [prod_trim, hq2 m]
+    · show m * q * s.batch ≤ MAXU; womega
+
+
+theorem Agree.ite {c c' : Prop} [Decidable c] [Decidable c'] {r : R Shape} {o : Option SShape}
+    (hc : c ↔ c') (h : ¬ c → Agree r o) :
+    Agree (if c then throwError else r) (if c' then none else o) := by
+  by_cases hcc : c
+  · rw [if_pos hcc, if_pos (hc.1 hcc)]; exact Agree.error
+  · rw [if_neg hcc, if_neg (fun x => hcc (hc.2 x))]; exact h hcc
+
+@[simp] theorem toSpec_dims (s : Shape) : (toSpec s).dims = s.dims := rfl
+@[simp] theorem toSpec_batch (s : Shape) : (toSpec s).batch = s.batch := rfl
+@[simp] theorem toSpec_depth (s : Shape) : (toSpec s).depth = s.depth := rfl
+@[simp] theorem toSpec_dimAt (s : Shape) (i : Nat) : (toSpec s).dimAt i = s.get i := rfl
+@[simp] theorem toSpec_compat (a b : Shape) :
+    compatibleBatch (toSpec a) (toSpec b) = a.hasCompatibleBatch b := rfl
+theorem toSpec_volume {s : Shape} (h : s.Canonical) : (toSpec s).volume = s.volume := h.vol.symm
+
+theorem hasSameDims_iff (a b : Shape) : a.hasSameDims b = true ↔ a.dims = b.dims := by
+  unfold Shape.hasSameDims Shape.depth
+  simp only [Bool.and_eq_true, List.all_eq_true, List.mem_range, beq_iff_eq]
+  constructor
+  · rintro ⟨h1, h2⟩; exact list_ext_getD h2 h1
+  · intro h; simp [h]
+
+theorem sub32_eq {a b : Nat} (h : b < a) (ha : a < W) : sub32 a b = a - b := by
+  unfold sub32; womega
+
+namespace ShapeOps
+open Shape
+
+theorem reshape_agree {a b : Shape} (ha : a.Canonical) (hb : b.Canonical) :
+    Agree (reshape a b) (Spec.reshape (toSpec a) (toSpec b)) := by
+  unfold reshape Spec.reshape
+  apply Agree.ite
+  · simp [toSpec_volume ha, toSpec_volume hb, hasBatch]
+  · intro _; exact updateBatch_agree hb _
+
+theorem flatten_agree {x : Shape} (hx : x.Canonical) :
+    Agree (flatten x) (Spec.flatten (toSpec x)) := by
+  unfold flatten Spec.flatten
+  rw [toSpec_volume hx]; exact new_agree _ _
+
+theorem scalarOp_agree {x k : Shape} (hx : x.Canonical) (_hk : k.Canonical) :
+    Agree (scalarOp x k) (Spec.scalarOp (toSpec x) (toSpec k)) := by
+  unfold scalarOp Spec.scalarOp
+  apply Agree.ite
+  · simp [isScalar]
+  · intro _; exact updateBatch_agree hx _
+
+theorem elementwise_agree {a b : Shape} (ha : a.Canonical) (_hb : b.Canonical) :
+    Agree (elementwise a b) (Spec.elementwise (toSpec a) (toSpec b)) := by
+  unfold elementwise Spec.elementwise
+  apply Agree.ite
+  · have := hasSameDims_iff a b
+    simp only [Bool.or_eq_true, Bool.not_eq_true', toSpec_dims, toSpec_compat, ne_eq]
+    rw [← this]; simp
+  · intro _; exact updateBatch_agree ha _
+
+theorem slice_agree {x : Shape} (hx : x.Canonical) (d lo up : Nat) :
+    Agree (slice x d lo up) (Spec.slice (toSpec x) d lo up) := by
+  unfold slice Spec.slice
+  apply Agree.ite
+  · simp
+  · intro hc
+    have hup : up < W := by have := hx.get_lt d; omega
+    by_cases hd : d ≥ x.depth
+    · have hd' : d ≥ (toSpec x).depth := hd
+      rw [if_pos hd, if_pos hd']; exact Agree.ok hx
+    · have hd' : ¬ d ≥ (toSpec x).depth := hd
+      rw [if_neg hd, if_neg hd', sub32_eq (by omega) hup]; exact updateDim_agree hx _ _
+
+theorem broadcast_agree {x : Shape} (hx : x.Canonical) (d n : Nat) :
+    Agree (broadcast x d n) (Spec.broadcast (toSpec x) d n) := by
+  unfold broadcast Spec.broadcast
+  apply Agree.ite
+  · simp
+  · intro _; exact updateDim_agree hx _ _
+
+theorem transpose_agree {x : Shape} (_hx : x.Canonical) :
+    Agree (transpose x) (Spec.transpose (toSpec x)) := by
+  unfold transpose Spec.transpose
+  apply Agree.ite
+  · simp [isMatrix]
+  · intro _; exact new_agree _ _
+
+theorem matmul_agree {l r : Shape} (_hl : l.Canonical) (_hr : r.Canonical) :
+    Agree (matmul l r) (Spec.matmul (toSpec l) (toSpec r)) := by
+  unfold matmul Spec.matmul
+  apply Agree.ite
+  · simp [isMatrix, or_assoc]
+  · intro _; exact new_agree _ _
+
+theorem batchSlice_agree {x : Shape} (hx : x.Canonical) (lo up : Nat) :
+    Agree (batchSlice x lo up) (Spec.batchSlice (toSpec x) lo up) := by
+  unfold batchSlice Spec.batchSlice
+  apply Agree.ite
+  · simp
+  · intro hc
+    have := hx.batch_lt
+    rw [sub32_eq (by omega) (by omega)]; exact updateBatch_agree hx _
+
+theorem split_cond {t n : Nat} (_hn : n ≠ 0) (ht : t < W) : mul32 (t / n) n ≠ t ↔ t % n ≠ 0 := by
+  unfold mul32
+  have h1 : t / n * n ≤ t := Nat.div_mul_le_self t n
+  rw [Nat.mod_eq_of_lt (by omega)]
+  have := Nat.div_add_mod t n
+  rw [Nat.mul_comm] at this
+  omega
+
+theorem split_agree {x : Shape} (hx : x.Canonical) (d n : Nat) :
+    Agree (split x d n) (Spec.split (toSpec x) d n) := by
+  unfold split Spec.split
+  by_cases hn : n = 0
+  · simp only [hn, if_true, true_or]; exact Agree.error
+  simp only [hn, if_false, false_or, toSpec_dimAt]
+  apply Agree.ite
+  · exact split_cond hn (hx.get_lt d)
+  · intro _; exact updateDim_agree hx _ _
+
+theorem batchSplit_agree {x : Shape} (hx : x.Canonical) (n : Nat) :
+    Agree (batchSplit x n) (Spec.batchSplit (toSpec x) n) := by
+  unfold batchSplit Spec.batchSplit
+  by_cases hn : n = 0
+  · simp only [hn, if_true, true_or]; exact Agree.error
+  simp only [hn, if_false, false_or, toSpec_batch]
+  apply Agree.ite
+  · exact split_cond hn hx.batch_lt
+  · intro _; exact updateBatch_agree hx _
+
+
+theorem pick_agree {x : Shape} (hx : x.Canonical) (ids : List Nat) (d : Nat) (hids : ids.length < W) :
+    Agree (pick x ids d) (Spec.pick (toSpec x) ids d) := by
+  unfold pick Spec.pick
+  simp only [Nat.mod_eq_of_lt hids]
+  apply Agree.ite
+  · simp [hasBatch]
+  · intro _
+    apply Agree.ite
+    · simp
+    · intro _
+      exact Agree.bind (updateDim_agree hx _ _) (fun r hr => updateBatch_agree hr _)
+
+theorem batchPick_agree {x : Shape} (hx : x.Canonical) (ids : List Nat) (hids : ids.length < W) :
+    Agree (batchPick x ids) (Spec.batchPick (toSpec x) ids) := by
+  unfold batchPick Spec.batchPick
+  simp only [Nat.mod_eq_of_lt hids]
+  by_cases h0 : ids.length = 0
+  · simp only [h0, if_true, true_or]; exact Agree.error
+  simp only [h0, if_false, false_or]
+  apply Agree.ite
+  · simp
+  · intro _; exact updateBatch_agree hx _
+
+theorem conv2d_agree {x w : Shape} (_hx : x.Canonical) (_hw : w.Canonical) (p0 p1 s0 s1 d0 d1 : Nat) :
+    Agree (conv2d x w p0 p1 s0 s1 d0 d1) (Spec.conv2d (toSpec x) (toSpec w) p0 p1 s0 s1 d0 d1) := by
+  unfold conv2d Spec.conv2d
+  apply Agree.ite
+  · simp
+  · intro _
+    apply Agree.ite
+    · simp only [toSpec_dimAt, W, MAXU]; omega
+    · intro _; exact new_agree _ _
+
+theorem pool2d_agree {x : Shape} (_hx : x.Canonical) (w0 w1 p0 p1 s0 s1 : Nat) :
+    Agree (pool2d x w0 w1 p0 p1 s0 s1) (Spec.pool2d (toSpec x) w0 w1 p0 p1 s0 s1) := by
+  unfold pool2d Spec.pool2d
+  apply Agree.ite
+  · simp
+  · intro _
+    apply Agree.ite
+    · simp only [toSpec_dimAt, W, MAXU]; omega
+    · intro _; exact new_agree _ _
+
+/-! ### permute_dims -/
+theorem permuteLoop_eq (x : Shape) (n : Nat) (ps picked : List Nat) :
+    permuteLoop x n ps picked =
+      if ps.any (fun p => decide (p ≥ n)) ∨ ¬ ps.Nodup ∨ ∃ p ∈ ps, p ∈ picked then throwError
+      else pure (ps.map x.get) := by
+  induction ps generalizing picked with
+  | nil => simp [permuteLoop]
+  | cons p ps ih =>
+    simp only [permuteLoop]
+    by_cases h1 : p ≥ n
+    · simp [h1]
+    by_cases h2 : picked.contains p = true
+    · have : p ∈ picked := by simpa using h2
+      simp only [h1, h2, if_true, if_false]
+      rw [if_pos]; right; right; exact ⟨p, by simp, this⟩
+    have h2' : p ∉ picked := by simpa using h2
+    have key : ((p :: ps).any (fun p => decide (p ≥ n)) = true ∨ ¬ (p :: ps).Nodup ∨ ∃ q ∈ p :: ps, q ∈ picked) ↔
+        ((ps.any fun p => decide (p ≥ n)) = true ∨ ¬ps.Nodup ∨ ∃ q, q ∈ ps ∧ q ∈ p :: picked) := by
+      constructor
+      · intro hcc
+        rcases hcc with hcc | hcc | ⟨q, hq1, hq2⟩
+        · left; simpa [h1] using hcc
+        · simp only [List.nodup_cons, not_and] at hcc
+          by_cases hp : p ∈ ps
+          · right; right; exact ⟨p, hp, by simp⟩
+          · right; left; exact hcc hp
+        · rcases List.mem_cons.1 hq1 with rfl | hq1
+          · exact (h2' hq2).elim
+          · right; right; exact ⟨q, hq1, List.mem_cons_of_mem _ hq2⟩
+      · intro hc
+        rcases hc with hc | hc | ⟨q, hq1, hq2⟩
+        · left; simp only [List.any_cons, Bool.or_eq_true]; right; exact hc
+        · right; left; simp only [List.nodup_cons, not_and]; intro _; exact hc
+        · rcases List.mem_cons.1 hq2 with rfl | hq2
+          · right; left; simp only [List.nodup_cons, not_and]; intro hh; exact (hh hq1).elim
+          · right; right; exact ⟨q, List.mem_cons_of_mem _ hq1, hq2⟩
+    simp only [h1, h2, if_false, ih]
+    by_cases hc : (ps.any fun p => decide (p ≥ n)) = true ∨ ¬ps.Nodup ∨ ∃ q, q ∈ ps ∧ q ∈ p :: picked
+    · rw [if_pos hc, if_pos (key.2 hc)]; rfl
+    · rw [if_neg hc, if_neg (fun h => hc (key.1 h))]; rfl
+
+theorem permuteDims_agree {x : Shape} (_hx : x.Canonical) (perm : List Nat) :
+    Agree (permuteDims x perm) (Spec.permuteDims (toSpec x) perm) := by
+  unfold permuteDims Spec.permuteDims
+  apply Agree.ite
+  · simp
+  · intro _
+    rw [permuteLoop_eq]
+    by_cases h1 : (perm.any fun p => decide (p ≥ perm.length)) = true
+    · simp only [h1, true_or, if_true]; exact Agree.error
+    by_cases h2 : perm.Nodup
+    · have : ¬ ((perm.any fun p => decide (p ≥ perm.length)) = true ∨ ¬perm.Nodup ∨ ∃ p, p ∈ perm ∧ p ∈ []) := by
+        simp [h1, h2]
+      rw [if_neg this, if_neg h1]
+      simp only [h2, decide_true, Bool.not_true, Bool.false_eq_true, if_false]
+      exact new_agree _ _
+    · rw [if_pos (.inr (.inl h2)), if_neg h1]
+      simp only [h2, decide_false, Bool.not_false, if_true]; exact Agree.error
+
+end ShapeOps
+
+/-! ### has_same_loo_dims -/
+theorem getD_take (l : List Nat) (d i : Nat) : (l.take d).getD i 1 = if i < d then l.getD i 1 else 1 := by
+  simp only [List.getD_eq_getElem?_getD, List.getElem?_take]
+  split <;> simp
+
+theorem looLen_eq {s : Shape} (ht : trim s.dims = s.dims) (d : Nat) :
+    s.looLen d = pure (trim (s.dims.set d 1)).length := by
+  unfold Shape.looLen Shape.depth
+  split
+  · rename_i h
+    have : trim (s.dims.take d) = trim (s.dims.set d 1) := by
+      rw [trim_eq_iff]
+      intro i
+      rw [getD_take, getD_set_one]
+      by_cases h1 : i < d
+      · rw [if_pos h1, if_neg (by omega)]
+      · rw [if_neg h1]
+        split
+        · rfl
+        · rw [getD_ge (by omega)]
+    rw [this]
+  · rename_i h
+    by_cases h1 : s.dims.length ≤ d
+    · rw [List.set_eq_of_length_le h1]
+    · have h2 : trim (s.dims.set d 1) = s.dims.set d 1 := by
+        rw [trim_eq_self_iff, List.getLast?_eq_getElem?, List.length_set, List.getElem?_set_ne (by omega),
+          ← List.getLast?_eq_getElem?]
+        exact trim_eq_self_iff.1 ht
+      rw [h2, ht, List.length_set]
+
+theorem hasSameLooDims_eq {a b : Shape} (ha : trim a.dims = a.dims) (hb : trim b.dims = b.dims) (d : Nat) :
+    a.hasSameLooDims b d = pure (Spec.sameLoo (toSpec a) (toSpec b) d) := by
+  unfold Shape.hasSameLooDims
+  rw [looLen_eq ha, looLen_eq hb]
+  show (pure _ : R Bool) = pure _
+  congr 1
+  rw [Bool.eq_iff_iff]
+  have hm : ((trim (a.dims.set d 1)).length == (trim (b.dims.set d 1)).length &&
+      (List.range (trim (a.dims.set d 1)).length).all fun i => a.dims.getD i 1 == b.dims.getD i 1 || i == d) = true
+      ↔ trim (a.dims.set d 1) = trim (b.dims.set d 1) := by
+    simp only [Bool.and_eq_true, beq_iff_eq, List.all_eq_true, List.mem_range, Bool.or_eq_true]
+    constructor
+    · rintro ⟨h1, h2⟩
+      apply list_ext_getD h1
+      intro i hi
+      rw [getD_trim, getD_trim, getD_set_one, getD_set_one]
+      split
+      · rfl
+      · rename_i hne; rcases h2 i hi with h | h
+        · exact h
+        · exact (hne h).elim
+    · intro h
+      refine ⟨by rw [h], ?_⟩
+      intro i _
+      have := trim_eq_iff.1 h i
+      rw [getD_set_one, getD_set_one] at this
+      by_cases hid : i = d
+      · exact .inr hid
+      · rw [if_neg hid, if_neg hid] at this; exact .inl this
+  have hs : Spec.sameLoo (toSpec a) (toSpec b) d = true
+      ↔ trim (a.dims.set d 1) = trim (b.dims.set d 1) := by
+    unfold Spec.sameLoo
+    simp only [List.all_eq_true, List.mem_range, Bool.or_eq_true, beq_iff_eq, toSpec_depth, toSpec_dimAt]
+    rw [trim_eq_iff]
+    unfold Shape.get Shape.depth
+    constructor
+    · intro h i
+      rw [getD_set_one, getD_set_one]
+      split
+      · rfl
+      · rename_i hne
+        by_cases hi : i < max a.dims.length b.dims.length
+        · rcases h i hi with h | h
+          · exact (hne h).elim
+          · exact h
+        · rw [getD_ge (by omega), getD_ge (by omega)]
+    · intro h i _
+      have := h i
+      rw [getD_set_one, getD_set_one] at this
+      by_cases hid : i = d
+      · exact .inl hid
+      · rw [if_neg hid, if_neg hid] at this; exact .inr this
+  rw [hm, hs]
+
+theorem sameLoo_congr {a a' : SShape} (h : a.dims = a'.dims) (b : SShape) (d : Nat) :
+    Spec.sameLoo a b d = Spec.sameLoo a' b d := by
+  unfold Spec.sameLoo SShape.depth SShape.dimAt; rw [h]
+
+/-! ### sums -/
+def lsum (l : List Nat) : Nat := l.foldl (· + ·) 0
+
+theorem foldl_add (l : List Nat) (v : Nat) : l.foldl (· + ·) v = v + l.foldl (· + ·) 0 := by
+  induction l generalizing v with
+  | nil => simp
+  | cons d ds ih => simp only [List.foldl_cons]; rw [ih (v + d), ih (0 + d)]; omega
+
+@[simp] theorem lsum_nil : lsum [] = 0 := rfl
+@[simp] theorem lsum_cons (d : Nat) (ds : List Nat) : lsum (d :: ds) = d + lsum ds := by
+  unfold lsum; simp only [List.foldl_cons]; rw [foldl_add]; omega
+
+/-! ### the batch of a concatenation: left fold of the code, right fold of the specification -/
+def lb (B : Nat) : List Nat → Option Nat
+  | [] => some B
+  | b :: rest => if B = b ∨ B = 1 ∨ b = 1 then lb (if B = 1 then b else B) rest else none
+
+def comb (x r : Nat) : Option Nat :=
+  if x = r ∨ x = 1 then some r else if r = 1 then some x else none
+
+theorem commonBatch_cons (s : SShape) (rest : List SShape) :
+    commonBatch (s :: rest) = (commonBatch rest).bind (comb s.batch) := by
+  simp only [commonBatch]; rfl
+
+theorem comb_merge (B b r : Nat) :
+    (if B = b ∨ B = 1 ∨ b = 1 then comb (if B = 1 then b else B) r else none) = (comb b r).bind (comb B) := by
+  unfold comb
+  by_cases h1 : B = 1 <;> by_cases h2 : b = 1 <;> by_cases h3 : B = b <;> by_cases h4 : b = r <;>
+    by_cases h5 : r = 1 <;> by_cases h6 : B = r <;> simp_all <;> omega
+
+theorem lb_eq_commonBatch (rest : List SShape) (x0 : SShape) :
+    lb x0.batch (rest.map (·.batch)) = commonBatch (x0 :: rest) := by
+  induction rest generalizing x0 with
+  | nil =>
+    rw [commonBatch_cons]
+    simp only [List.map_nil, lb, commonBatch, Option.bind_some, comb]
+    by_cases h : x0.batch = 1 <;> simp [h]
+  | cons s rest ih =>
+    simp only [List.map_cons, lb]
+    rw [commonBatch_cons x0, commonBatch_cons s]
+    have := ih ⟨x0.dims, if x0.batch = 1 then s.batch else x0.batch⟩
+    simp only at this
+    rw [this, commonBatch_cons]
+    cases commonBatch rest with
+    | none => simp
+    | some r => simp only [Option.bind_some]; exact comb_merge _ _ _
+
+theorem lb_some {B b : Nat} {l : List Nat} (h : lb B l = some b) (hB : B ≠ 0) (hl : ∀ x ∈ l, x ≠ 0) :
+    b ≠ 0 ∧ (B = 1 ∨ b = B) := by
+  induction l generalizing B with
+  | nil => simp [lb] at h; subst h; exact ⟨hB, .inr rfl⟩
+  | cons x xs ih =>
+    simp only [lb] at h
+    split at h
+    · have hx := hl x (by simp)
+      by_cases hB1 : B = 1
+      · rw [if_pos hB1] at h
+        exact ⟨(ih h hx (fun y hy => hl y (List.mem_cons_of_mem _ hy))).1, .inl hB1⟩
+      · rw [if_neg hB1] at h
+        have := ih h hB (fun y hy => hl y (List.mem_cons_of_mem _ hy))
+        exact ⟨this.1, this.2.elim (fun e => (hB1 e).elim) .inr⟩
+    · cases h
+
+
+theorem updateBatch_big {s : Shape} (h : s.Canonical) {b : Nat} (hb : b > MAXU) :
+    s.updateBatch b = throwError := by
+  unfold Shape.updateBatch
+  have := h.vol_pos
+  have : b ≤ s.volume * b := Nat.le_mul_of_pos_left _ this
+  rw [if_neg (by womega), if_pos (by omega)]
+
+theorem updateDim_big {s : Shape} (h : s.Canonical) (d : Nat) {m : Nat} (hm : m > MAXU) :
+    s.updateDim d m = throwError := by
+  unfold Shape.updateDim
+  by_cases hd : d ≥ 8
+  · rw [if_pos hd]
+  rw [if_neg hd, if_neg (by womega)]
+  have hg := h.get_pos d
+  have hq : 0 < s.volume / s.get d := Nat.div_pos (h.get_le_vol d) hg
+  have : m ≤ s.volume / s.get d * m := Nat.le_mul_of_pos_left _ hq
+  simp only
+  rw [if_neg (by omega), if_pos (.inl (by omega))]
+
+namespace ShapeOps
+open Shape
+
+theorem withBatch_canonical {s : Shape} (h : s.Canonical) {b : Nat} (hb : b ≠ 0) (hv : s.volume * b ≤ MAXU) :
+    ({ s with batch := b } : Shape).Canonical :=
+  ⟨h.len, h.nz, h.trimmed, hb, h.vol, hv⟩
+
+theorem concatLoop_eq (d : Nat) (rest : List Shape) (hrest : ∀ s ∈ rest, s.Canonical)
+    (s0 : Shape) (h0 : s0.Canonical) (sum : Nat) :
+    concatLoop d rest (s0, sum) =
+      if rest.all (fun s => Spec.sameLoo (toSpec s0) (toSpec s) d) = false then throwError else
+      match lb s0.batch (rest.map (·.batch)) with
+      | none => throwError
+      | some b => if s0.volume * b > MAXU then throwError
+                  else pure ({ s0 with batch := b }, sum + lsum (rest.map (·.get d))) := by
+  induction rest generalizing s0 sum with
+  | nil =>
+    have := h0.bound
+    simp only [concatLoop, List.all_nil, List.map_nil, lb, lsum_nil, Nat.add_zero]
+    rw [if_neg (by simp), if_neg (by omega)]
+  | cons s rest ih =>
+    have hs := hrest s (by simp)
+    have hr : ∀ t ∈ rest, t.Canonical := fun t ht => hrest t (List.mem_cons_of_mem _ ht)
+    simp only [concatLoop]
+    rw [hasSameLooDims_eq h0.trimmed hs.trimmed]
+    show (if (!Spec.sameLoo (toSpec s0) (toSpec s) d || !s0.hasCompatibleBatch s) = true then throwError
+      else if (!s0.hasBatch) = true then s0.updateBatch s.batch >>= fun s0' =>
+          concatLoop d rest (s0', sum + s.get d)
+        else concatLoop d rest (s0, sum + s.get d)) = _
+    by_cases hl : Spec.sameLoo (toSpec s0) (toSpec s) d = false
+    · rw [if_pos (by simp [hl]), if_pos (by simp [hl])]
+    replace hl : Spec.sameLoo (toSpec s0) (toSpec s) d = true := by simpa using hl
+    by_cases hc : s0.hasCompatibleBatch s = false
+    · rw [if_pos (by simp [hc])]
+      have : ¬ (s0.batch = s.batch ∨ s0.batch = 1 ∨ s.batch = 1) := by
+        have := hc; simp [hasCompatibleBatch] at this; omega
+      simp only [List.map_cons, lb, if_neg this]
+      split <;> rfl
+    replace hc : s0.hasCompatibleBatch s = true := by simpa using hc
+    have hc' : s0.batch = s.batch ∨ s0.batch = 1 ∨ s.batch = 1 := by
+      have := hc; simp [hasCompatibleBatch] at this; omega
+    rw [if_neg (by simp [hl, hc])]
+    simp only [List.all_cons, hl, Bool.true_and, List.map_cons, lb, if_pos hc', lsum_cons]
+    by_cases hb1 : s0.batch = 1
+    · -- the code adopts the batch of `s`
+      have hhb : (!s0.hasBatch) = true := by simp [hasBatch, hb1]
+      rw [if_pos hhb, if_pos hb1]
+      unfold updateBatch
+      rw [if_neg hs.batch_ne]
+      by_cases hv : s0.volume * s.batch > MAXU
+      · rw [if_pos hv]
+        show throwError = _
+        split
+        · rfl
+        · split
+          · rfl
+          · rename_i b hb
+            have := lb_some hb hs.batch_ne (by
+              intro x hx; obtain ⟨t, ht, rfl⟩ := List.mem_map.1 hx; exact (hr t ht).batch_ne)
+            have h1 : s.batch ≠ 1 := by
+              intro e; rw [e] at hv; have := h0.vol_lt; womega
+            have : b = s.batch := this.2.elim (fun e => (h1 e).elim) id
+            rw [this, if_pos hv]
+      · rw [if_neg hv]
+        have hcan := withBatch_canonical h0 hs.batch_ne (by omega)
+        show concatLoop d rest ({ s0 with batch := s.batch }, sum + s.get d) = _
+        rw [ih hr _ hcan]
+        simp only [Nat.add_assoc]
+        have : ∀ t, Spec.sameLoo (toSpec { s0 with batch := s.batch }) t d = Spec.sameLoo (toSpec s0) t d :=
+          fun t => sameLoo_congr rfl t d
+        simp only [this]
+    · have hhb : ¬ (!s0.hasBatch) = true := by
+        have := h0.batch_ne
+        simp [hasBatch]; omega
+      rw [if_neg hhb, if_neg hb1]
+      rw [ih hr _ h0]
+      simp only [Nat.add_assoc]
+
+end ShapeOps
+
+theorem mk_bind_setBatch (l : List Nat) {b0 b : Nat} (h0 : b0 ≠ 0) (hle : b0 ≤ b) :
+    (Spec.mk l b0).bind (fun s => Spec.setBatch s b) = Spec.mk l b := by
+  unfold Spec.setBatch
+  rw [mk_eq l b0, mk_eq l b]
+  have hmul : prod l * b0 ≤ prod l * b := Nat.mul_le_mul_left _ hle
+  by_cases hl : l.length > 8
+  · simp [hl]
+  by_cases hz : 0 ∈ l
+  · simp [hz]
+  by_cases hc : prod l * b0 ≥ W
+  · rw [if_pos (by simp [hc]), if_pos (.inr (.inr (.inr (by omega))))]; rfl
+  rw [if_neg (by simp [hl, hz, h0, hc])]
+  simp only [Option.bind_some]
+  rw [mk_eq, prod_trim, trim_trim]
+  have h1 : ¬ (trim l).length > 8 := by have := length_trim_le l; omega
+  have h2 : ¬ 0 ∈ trim l := fun h => hz (mem_trim h)
+  simp only [h1, h2, hl, hz, false_or]
+
+namespace ShapeOps
+open Shape
+
+theorem concat_agree (xs : List Shape) (hxs : ∀ s ∈ xs, s.Canonical) (d : Nat) :
+    Agree (concat xs d) (Spec.concat (xs.map toSpec) d) := by
+  cases xs with
+  | nil => exact Agree.error
+  | cons x0 rest =>
+    have h0 := hxs x0 (by simp)
+    have hr : ∀ t ∈ rest, t.Canonical := fun t ht => hxs t (List.mem_cons_of_mem _ ht)
+    show Agree (concat (x0 :: rest) d) (Spec.concat (toSpec x0 :: rest.map toSpec) d)
+    simp only [concat, Spec.concat]
+    rw [concatLoop_eq d rest hr x0 h0]
+    have hall : (List.map toSpec rest).all (fun s => Spec.sameLoo (toSpec x0) s d) =
+        rest.all (fun s => Spec.sameLoo (toSpec x0) (toSpec s) d) := by
+      simp [List.all_map, Function.comp_def]
+    rw [hall]
+    by_cases ha : rest.all (fun s => Spec.sameLoo (toSpec x0) (toSpec s) d) = false
+    · rw [if_pos ha, if_pos (by simp [ha])]; exact Agree.error
+    rw [if_neg ha, if_neg (by simpa using ha)]
+    have hcb := lb_eq_commonBatch (rest.map toSpec) (toSpec x0)
+    simp only [List.map_map, toSpec_batch] at hcb
+    have hcb' : lb x0.batch (rest.map (·.batch)) = commonBatch (toSpec x0 :: rest.map toSpec) := by
+      rw [← hcb]; congr 1
+    rw [← hcb']
+    have hsum : ((toSpec x0 :: rest.map toSpec).map (·.dimAt d)).foldl (· + ·) 0 =
+        x0.get d + lsum (rest.map (·.get d)) := by
+      rw [← lsum_cons]; unfold lsum; simp [List.map_map, Function.comp_def]
+    rw [hsum]
+    cases hlb : lb x0.batch (rest.map (·.batch)) with
+    | none => exact Agree.error
+    | some b =>
+      have hbs := lb_some hlb h0.batch_ne (by
+        intro x hx; obtain ⟨t, ht, rfl⟩ := List.mem_map.1 hx; exact (hr t ht).batch_ne)
+      have hle : x0.batch ≤ b := by
+        have := h0.batch_ne; rcases hbs.2 with h | h <;> omega
+      -- the specification side: one `mk` with the final batch
+      have hspec : (Spec.setDim (toSpec x0) d (x0.get d + lsum (rest.map (·.get d)))).bind
+            (fun s => Spec.setBatch s b) =
+          Spec.setDim (toSpec ({ x0 with batch := b } : Shape)) d (x0.get d + lsum (rest.map (·.get d))) := by
+        unfold Spec.setDim
+        by_cases hd : d ≥ 8
+        · simp [hd]
+        · rw [if_neg hd, if_neg hd]
+          exact mk_bind_setBatch _ h0.batch_ne hle
+      show Agree _ ((Spec.setDim (toSpec x0) d (x0.get d + lsum (rest.map (·.get d)))).bind
+            (fun s => Spec.setBatch s b))
+      rw [hspec]
+      generalize hT : x0.get d + lsum (rest.map (·.get d)) = total
+      have hge : x0.get d ≤ total := by omega
+      by_cases hv : x0.volume * b > MAXU
+      · -- the code fails when adopting the batch; the specification's product is too large as well
+        simp only [hv, if_true]
+        show Agree throwError _
+        have : Spec.setDim (toSpec ({ x0 with batch := b } : Shape)) d total = none := by
+          unfold Spec.setDim
+          by_cases hd : d ≥ 8
+          · rw [if_pos hd]
+          rw [if_neg hd]
+          show Spec.mk ((pad x0.dims d).set d total) b = none
+          rw [mk_eq]
+          have hlen : d < (pad x0.dims d).length := by rw [length_pad]; omega
+          obtain ⟨q, hq1, hq2⟩ := prod_set hlen
+          have hget : (pad x0.dims d)[d] = x0.get d := by rw [← getD_lt hlen, getD_pad]; rfl
+          rw [prod_pad, ← h0.vol, hget] at hq1
+          rw [hq2 total]
+          have : x0.get d * q * b ≤ total * q * b :=
+            Nat.mul_le_mul_right _ (Nat.mul_le_mul_right _ hge)
+          rw [← hq1] at this
+          rw [if_pos (.inr (.inr (.inr (by womega))))]
+        rw [this]; exact Agree.error
+      · simp only [hv, if_false]
+        have hcan := withBatch_canonical h0 hbs.1 (by omega)
+        show Agree (if total > MAXU then throwError else
+          ({ x0 with batch := b } : Shape).updateDim d total) _
+        by_cases ht : total > MAXU
+        · rw [if_pos ht, ← updateDim_big hcan d ht]; exact updateDim_agree hcan _ _
+        · rw [if_neg ht]; exact updateDim_agree hcan _ _
+
+
+theorem batchConcatLoop_eq (s0 : Shape) (rest : List Shape) (sum : Nat) :
+    batchConcatLoop s0 rest sum =
+      if rest.all (fun s => s.dims == s0.dims) = false then throwError
+      else pure (sum + lsum (rest.map (·.batch))) := by
+  induction rest generalizing sum with
+  | nil => simp [batchConcatLoop]
+  | cons s rest ih =>
+    simp only [batchConcatLoop, List.all_cons, List.map_cons, lsum_cons]
+    by_cases h : s0.hasSameDims s = true
+    · have h' : (s.dims == s0.dims) = true := by simpa using ((hasSameDims_iff _ _).1 h).symm
+      rw [if_neg (by simp [h]), ih, h', Bool.true_and, Nat.add_assoc]
+    · have h' : (s.dims == s0.dims) = false := by
+        simp only [beq_eq_false_iff_ne, ne_eq]
+        intro e; exact h ((hasSameDims_iff _ _).2 e.symm)
+      rw [if_pos (by simpa using h), h', Bool.false_and, if_pos rfl]
+
+theorem batchConcat_agree (xs : List Shape) (hxs : ∀ s ∈ xs, s.Canonical) :
+    Agree (batchConcat xs) (Spec.batchConcat (xs.map toSpec)) := by
+  cases xs with
+  | nil => exact Agree.error
+  | cons x0 rest =>
+    have h0 := hxs x0 (by simp)
+    show Agree (batchConcat (x0 :: rest)) (Spec.batchConcat (toSpec x0 :: rest.map toSpec))
+    simp only [batchConcat, Spec.batchConcat]
+    rw [batchConcatLoop_eq]
+    have hall : (List.map toSpec rest).all (fun s => s.dims == (toSpec x0).dims) =
+        rest.all (fun s => s.dims == x0.dims) := by
+      simp [List.all_map, Function.comp_def]
+    rw [hall]
+    by_cases ha : rest.all (fun s => s.dims == x0.dims) = false
+    · rw [if_pos ha, if_pos (by simp [ha])]; exact Agree.error
+    rw [if_neg ha, if_neg (by simpa using ha)]
+    have hsum : ((toSpec x0 :: rest.map toSpec).map (·.batch)).foldl (· + ·) 0 =
+        x0.batch + lsum (rest.map (·.batch)) := by
+      rw [← lsum_cons]; unfold lsum; simp [List.map_map, Function.comp_def]
+    rw [hsum]
+    generalize x0.batch + lsum (rest.map (·.batch)) = total
+    show Agree (if total > MAXU then throwError else x0.updateBatch total) _
+    by_cases ht : total > MAXU
+    · rw [if_pos ht, ← updateBatch_big h0 ht]; exact updateBatch_agree h0 _
+    · rw [if_neg ht]; exact updateBatch_agree h0 _
+
+end ShapeOps
+
+/-! ### equality and exactness of the cached 32-bit products -/
+theorem eq_iff' (a b : Shape) : a.eq b = true ↔ a.dims = b.dims ∧ a.batch = b.batch := by
+  unfold Shape.eq
+  rw [Bool.and_eq_true, hasSameDims_iff, beq_iff_eq]
+
+theorem size_exact' {s : Shape} (h : s.Canonical) : s.size = s.batch * Spec.prod s.dims := by
+  unfold Shape.size mul32
+  rw [← h.vol, Nat.mod_eq_of_lt]
+  have := h.bound; rw [Nat.mul_comm]; womega
+
+theorem lowerVolume_exact' {s : Shape} (h : s.Canonical) (d : Nat) :
+    s.lowerVolume d = Spec.prod (s.dims.take d) := by
+  unfold Shape.lowerVolume
+  rw [prod32_eq, Nat.mod_eq_of_lt]
+  have h1 : prod s.dims = prod (s.dims.take d) * prod (s.dims.drop d) := by
+    rw [← prod_append, List.take_append_drop]
+  have h2 : 0 < prod (s.dims.drop d) := prod_pos (fun x hx => h.nz x (List.mem_of_mem_drop hx))
+  have h3 : prod (s.dims.take d) ≤ prod (s.dims.take d) * prod (s.dims.drop d) := Nat.le_mul_of_pos_right _ h2
+  have := h.vol_lt; rw [h.vol] at this; omega
+
+
+theorem sameLoo_iff (a b : SShape) (d : Nat) :
+    Spec.sameLoo a b d = true ↔ ∀ i, i ≠ d → a.dimAt i = b.dimAt i := by
+  unfold Spec.sameLoo SShape.dimAt SShape.depth
+  simp only [List.all_eq_true, List.mem_range, Bool.or_eq_true, beq_iff_eq]
+  constructor
+  · intro h i hne
+    by_cases hi : i < max a.dims.length b.dims.length
+    · exact (h i hi).elim (fun e => (hne e).elim) id
+    · rw [getD_ge (by omega), getD_ge (by omega)]
+  · intro h i _
+    by_cases hid : i = d
+    · exact .inl hid
+    · exact .inr (h i hid)
+
+instance (s : Shape) : Decidable s.Canonical := by unfold Shape.Canonical; infer_instance
+
+end Primitiv
